@@ -8,7 +8,7 @@ From Blue Require Import Cursor.Iface Cursor.Bounds Cursor.Compose Scan.Model.
 Require Import ExtrOcamlBasic.
 Extraction Language OCaml.
 Extraction "../ocaml/scan/gen_scan.ml"
-  run_scan run_scan_gen run_live run_tree_scan live_spec scan_expr tree_scan_expr spec_of cv uncv
+  run_scan run_scan_gen run_scan_dup run_live run_tree_scan live_spec scan_expr tree_scan_expr spec_of cv uncv
   Lsm.History.init_at Lsm.History.step Lsm.History.acceptedb get load valid_compactionb vc_shape vc_slice vc_rest vc_range
   vc_closed vc_ids outputs_okb gc_outputs_okb wf_versionb orderedb apply_compaction flush subsetb
   file_entries sort_entries all_keys N.of_nat N.to_nat N.add N.mul N.div_eucl.
